@@ -53,3 +53,28 @@ for _f in ("cell_stats", "combine", "lesser_frequency", "equal_frequency", "grea
                       why="flat cell k is folded back to (k // width, k % width)"))
 TABLES.append(dict(module="xrspatial/local.py", name="funcs", props=("C17",), entries={
     "max": "np.max", "mean": "np.mean", "median": "np.median", "min": "np.min", "std": "np.std", "sum": "np.sum"}))
+
+# C07: halo / fallback arithmetic of proximity._process._process_dask
+_PD = dict(module="xrspatial/proximity.py", function="_process_dask", props=("C07",))
+CALLS += [
+    dict(_PD, where="assign:pad_y", call="int(max_distance / cellsize_y + 0.5)", why="rows of halo: the y cell size drives axis 0"),
+    dict(_PD, where="assign:pad_x", call="int(max_distance / cellsize_x + 0.5)", why="columns of halo: the x cell size drives axis 1"),
+    dict(_PD, where="anywhere", call="da.map_overlap(_process_numpy, raster.data, xs, ys, depth=(pad_y, pad_x), boundary=np.nan, meta=np.array(()))",
+         why="data and both coordinate grids are mapped together, halo (rows, cols), NaN outside the raster"),
+    dict(_PD, where="assign:raster.data", call="raster.data.rechunk({0: height, 1: width})", why="one block when max_distance reaches the extent"),
+    dict(_PD, where="assign:xs", call="xs.rechunk({0: height, 1: width})", why="coordinate grids chunked like the data"),
+    dict(_PD, where="assign:ys", call="ys.rechunk({0: height, 1: width})", why="coordinate grids chunked like the data"),
+    dict(_PD, where="test", call="max_distance >= max_possible_distance", why="documented fallback condition"),
+]
+
+# C14: the cell lookup uses the rounding form proved in lemma C14.get_pixel_id, rows from y / cellsize_y, columns from x / cellsize_x
+_GP = dict(module="xrspatial/pathfinding.py", function="_get_pixel_id", props=("C14",))
+CALLS += [
+    dict(_GP, where="assign:py", call="int(abs(point[0] - y_coords[0]) / cellsize_y + 0.5)", why="row index of the nearest centre"),
+    dict(_GP, where="assign:px", call="int(abs(point[1] - x_coords[0]) / cellsize_x + 0.5)", why="column index of the nearest centre"),
+    dict(_GP, where="return", call="(py, px)", why="(row, column)"),
+    dict(module="xrspatial/pathfinding.py", function="_neighborhood_structure", props=("C14",), where="assign:neighbor_xs",
+         call="[-1, -1, -1, 0, 0, 1, 1, 1]", why="8-neighbourhood offsets (x)"),
+    dict(module="xrspatial/pathfinding.py", function="_neighborhood_structure", props=("C14",), where="assign:neighbor_ys",
+         call="[-1, 0, 1, -1, 1, -1, 0, 1]", why="8-neighbourhood offsets (y)"),
+]
